@@ -89,17 +89,25 @@ def deep_chain(exe, which, pid, n=200000, stack_mb=8):
     try:
         p = subprocess.run([exe], input=line + '\n', stdout=subprocess.PIPE, stderr=subprocess.PIPE, text=True, env=ENV, preexec_fn=lim, timeout=600)
         out, rc, err = p.stdout, p.returncode, p.stderr[-300:]
-    except Exception as e:      # the machinery, not the property
-        return {'usable': False, 'why': repr(e)[:200]}, []
+    except subprocess.TimeoutExpired:
+        return {'links': n, 'result': None, 'child_exit': 'timeout'}, [{'class': 'deep-chain-died', 'key': 'chain %d' % n,
+                'what': '%s: no answer within 600 s for a chain of %d definitions' % (pid, n), 'links': n}]
     res = None
     for l in out.split('\n'):
         if l.startswith('D\t'):
             res = l.split('\t', 1)[1]
     st = {'links': n, 'stack_limit_MiB': stack_mb, 'result': res, 'child_exit': rc}
-    if res is None:
-        return st, [{'class': 'deep-chain-stack-overflow', 'key': 'chain %d' % n,
-                     'what': '%s: %s of a chain of %d Tuple definitions (t0 -> t1 -> ... -> a Primitive; about %d bytes when decoded from bytes) kills the '
-                             'process under a %d MiB stack (exit %s: %s)' % (pid, 'validate()' if which == 'validate' else 'max_serialized_size()', n, 29 * n, stack_mb, rc,
-                                                                             err.replace('\n', ' ').strip()[-160:]),
-                     'links': n, 'replay_cmd': "(ulimit -s %d; printf '%s\\n' | %s)" % (stack_mb * 1024, line.replace('\t', '\\t'), exe)}]
-    return st, []
+    want = 'ok' if which == 'validate' else 'ok 1'
+    if res is not None:
+        if res != want:      # the child answered, and wrongly: not the known finding
+            return st, [{'class': 'deep-chain-wrong', 'key': 'chain %d' % n,
+                         'what': '%s: %s of a chain of %d Tuple definitions ending in a one-byte primitive gives %s, expected %s'
+                                 % (pid, 'validate()' if which == 'validate' else 'max_serialized_size()', n, res, want), 'links': n}]
+        return st, []
+    # no answer: the known finding F20 only if the child was killed by a signal after rustc's own stack-overflow message
+    overflow = rc < 0 and 'overflowed its stack' in err
+    return st, [{'class': 'deep-chain-stack-overflow' if overflow else 'deep-chain-died', 'key': 'chain %d' % n,
+                 'what': '%s: %s of a chain of %d Tuple definitions (t0 -> t1 -> ... -> a Primitive; about %d bytes when decoded from bytes) kills the '
+                         'process under a %d MiB stack (exit %s: %s)' % (pid, 'validate()' if which == 'validate' else 'max_serialized_size()', n, 29 * n, stack_mb, rc,
+                                                                         err.replace('\n', ' ').strip()[-160:]),
+                 'links': n, 'replay_cmd': "(ulimit -s %d; printf '%s\\n' | %s)" % (stack_mb * 1024, line.replace('\t', '\\t'), exe)}]
